@@ -14,6 +14,8 @@ type UMember struct {
 	Embedded bool
 	Tags     string
 	Type     *UObj
+
+	CommentLines []string
 }
 
 type UParam struct {
